@@ -892,7 +892,7 @@ SKELETON_FILES = ["rtrlib/pfx/trie/trie-pfx.c", "rtrlib/spki/hashtable/ht-spkita
 def generate():
     out = []
     w = out.append
-    w("(* GENERATED by tools/c2v.py from %s - do not edit. *)" % REPO)
+    w("(* GENERATED by tools/c2v.py from the repository sources - do not edit. *)")
     w("From RtrV Require Import Base.CSem.")
     w("Local Open Scope string_scope.\nLocal Open Scope Z_scope.\n")
     problems = []
